@@ -42,8 +42,8 @@ Print Assumptions C02_one_entry_all_families.
    node has no pod CIDRs (never a partial assignment: a PATCH is issued only after every configured
    family was reserved) *)
 Theorem C02_patch_is_the_whole_assignment :
-  forall po lab canp apisame held m cached reread outs m' r fx,
-  sync_node po lab canp apisame held m cached reread outs = (m', r, fx) ->
+  forall po lab svcs canp apisame held m cached reread outs m' r fx,
+  sync_node po lab svcs canp apisame held m cached reread outs = (m', r, fx) ->
   forall nm cs o, In (FxPatch nm cs o) fx ->
     (exists node, cached = Some node /\ nm = n_name node /\ n_cidrs node = []) /\
     (exists n, reread = Some n /\ n_cidrs n = []) /\ all_unheld held cs.
@@ -52,9 +52,9 @@ Print Assumptions C02_patch_is_the_whole_assignment.
 
 (* the invariant the above rests on is preserved by every node work item *)
 Theorem C02_invariant_preserved :
-  forall po lab canp apisame held m cached reread outs m' r fx,
-  MapInv m -> (forall n, cached = Some n -> wf_node n) ->
-  sync_node po lab canp apisame held m cached reread outs = (m', r, fx) -> MapInv m'.
+  forall po lab svcs canp apisame held m cached reread outs m' r fx,
+  MapInv m -> Forall wf_cidr svcs -> (forall n, cached = Some n -> wf_node n) ->
+  sync_node po lab svcs canp apisame held m cached reread outs = (m', r, fx) -> MapInv m'.
 Proof. exact sync_node_inv. Qed.
 Print Assumptions C02_invariant_preserved.
 
